@@ -32,9 +32,12 @@ ClassWords(c) == CASE c = 100 -> <<"Thin">>          [] c = 200 -> <<"Extra", "L
 NamedWeights == {100, 200, 300, 400, 500, 600, 700, 800, 900}
 ModelWeights == 0..1000
 WeightName(w) == IF w \in NamedWeights THEN ClassWords(w) ELSE <<ToString(w)>>
+\* The reverse map is consulted only when the OS/2 weight is 0 or absent; numeric names are searched among the
+\* numeric weights the models put into a CFF FontInfo.
+NameableWeights == NamedWeights \cup {0, 1, 250, 650, 1000}
 WeightFromName(n) == IF n = <<"Regular">> THEN 400
-                     ELSE IF \E w \in ModelWeights : WeightName(w) = n
-                            THEN CHOOSE w \in ModelWeights : WeightName(w) = n
+                     ELSE IF \E w \in NameableWeights : WeightName(w) = n
+                            THEN CHOOSE w \in NameableWeights : WeightName(w) = n
                             ELSE 0
 \* usWidthClass names (OpenType OS/2 usWidthClass table)
 WidthWords(w) == CASE w = 1 -> <<"Ultra", "Condensed">> [] w = 2 -> <<"Extra", "Condensed">>
